@@ -114,9 +114,12 @@ BIG_N = 200
 BIG_ANCHORS = (0, 64, 70, 100, 128, 199)
 
 
-def big_kinds(tier):
+BIG_SCALES = (1, 4)  # 200 positions (blocks of 64 would show) and 800 positions (blocks of 256)
+
+
+def big_kinds(tier, scale=1):
     anchors = BIG_ANCHORS + ((63, 127, 150) if tier == "thorough" else ())
-    anchors = tuple(sorted(anchors))
+    anchors = tuple(sorted(min(a * scale, BIG_N * scale - 1) if a != 199 else BIG_N * scale - 1 for a in anchors))
     out = []
     for a, b in itertools.combinations(anchors, 2):
         out.append(tuple(range(a, b + 1)))  # covers every variant between its ends
@@ -126,15 +129,19 @@ def big_kinds(tier):
 
 def big_blocks(tier):
     kinds = big_kinds(tier)
-    for R in (1, 2, 3):
-        for prefix in itertools.combinations_with_replacement(range(len(kinds)), R - 1):
-            yield ("big", tier, prefix)
+    for scale in BIG_SCALES:
+        for R in (1, 2, 3):
+            for prefix in itertools.combinations_with_replacement(range(len(kinds)), R - 1):
+                if scale > 1 and R == 3 and tier != "thorough" and (prefix[0] + prefix[1]) % 3:
+                    continue  # the larger scale on a third of the three-read prefixes
+                yield ("big", tier, prefix, scale)
 
 
 def run_big(block):
-    _, tier, prefix = block
-    kinds = big_kinds(tier)
-    backbone = tuple(range(BIG_N))
+    _, tier, prefix, scale = block
+    kinds = big_kinds(tier, scale)
+    N = BIG_N * scale
+    backbone = tuple(range(N))
     lo = prefix[-1] if prefix else 0
     viols = []
     cnt = nt = 0
@@ -149,7 +156,7 @@ def run_big(block):
                     prefsets = [()] if R > 2 else [c for m in range(R + 1) for c in itertools.combinations(range(R), m)]
                     for pref in prefsets:
                         cnt += 1
-                        res, sel = judge_selection(BIG_N, reads, k, bridging, set(pref), [30] * R)
+                        res, sel = judge_selection(N, reads, k, bridging, set(pref), [30] * R)
                         if len(sel) < R:
                             nt += 1
                         outcomes.add(("big", len(sel), R, bool(pref)))
@@ -160,7 +167,7 @@ def run_big(block):
                                         "clause": clause,
                                         "signature": "c07:" + clause + ":many-variants",
                                         "detail": detail[:600],
-                                        "instance": {"n": BIG_N, "reads_as_ranges": [[r[0], r[-1], len(r)] for r in reads], "k": k, "bridging": bridging, "preferred": list(pref)},
+                                        "instance": {"n": N, "reads_as_ranges": [[r[0], r[-1], len(r)] for r in reads], "k": k, "bridging": bridging, "preferred": list(pref)},
                                     }
                                 )
     return Result(n=cnt, nontrivial=nt, violations=viols, outcomes=outcomes)
@@ -184,6 +191,8 @@ def pipeline_worlds(tier):
                     for h in (0, 1):
                         world["reads"].append({"sample": "S1", "chrom": "chrA", "hap": h, "segs": [[a, b, 5, 5]], "n": depth})
                 yield world, dict(max_coverage=k), None
+                # the same with --merge-reads (identical error-free reads are merged before the selection)
+                yield world, dict(max_coverage=k, read_merging=True, read_merging_positive_threshold=5, read_merging_negative_threshold=5), None
         # trio
         for k in (3, 4, 6) + ((2, 5, 7) if T else ()):
             for design in range(3):
